@@ -34,6 +34,8 @@ func writeReplay(prog *Program, res *FuncResult, o checkOpts, ob *Oblig, dir str
 	return path, rp.Reproduced
 }
 
+// cmdReplay: re-decides the failed obligation named in a replay file on /repo's current working tree (same generator,
+// same solvers) and prints the stored record: exit 1 while the obligation still fails, 0 once it is discharged.
 func cmdReplay(args []string) int {
 	if len(args) < 1 {
 		usage()
@@ -43,7 +45,40 @@ func cmdReplay(args []string) int {
 		fmt.Println(err)
 		return 2
 	}
+	var rec struct {
+		Property   string `json:"property"`
+		Obligation string `json:"obligation"`
+		Status     string `json:"status"`
+	}
 	fmt.Println(strings.TrimSpace(string(b)))
+	if json.Unmarshal(b, &rec) != nil || rec.Property == "" || rec.Obligation == "" {
+		return 0
+	}
+	name := rec.Obligation
+	out := runCheck(checkOpts{property: rec.Property, tier: "quick", repo: "/repo", only: name, noEvidence: true, quiet: true})
+	for _, ob := range out.failed {
+		if ob.name == name {
+			fmt.Printf("REPLAY: obligation still fails on the current tree: %s [%s, %s]\n", ob.name, ob.status, ob.solver)
+			return 1
+		}
+	}
+	for _, ob := range out.known {
+		if ob.name == name {
+			fmt.Printf("REPLAY: obligation still fails on the current tree (listed as a known finding): %s\n", ob.name)
+			return 1
+		}
+	}
+	found := false
+	for _, ob := range out.obligs {
+		if ob.name == name {
+			found = true
+		}
+	}
+	if !found {
+		fmt.Printf("REPLAY: the obligation is no longer generated on the current tree (contract or code changed): %s\n", name)
+		return 0
+	}
+	fmt.Printf("REPLAY: obligation is discharged on the current tree: %s\n", name)
 	return 0
 }
 
